@@ -14,13 +14,14 @@ Definition strlen (s : str) : Z := Z.of_nat (length s).
 
 (* vm_execute_string_deref:
      if (str_ptr == nil) NIL_POINTER
-     if (index >= (int)strlen(str)) INDEX_OOB       <- the only guard in the pinned tree
+     if (index < 0 || index >= (int)strlen(str)) INDEX_OOB          (fix a6ffef6 added index < 0)
      c = str[index]
    Ok k : the character at offset k is read and pushed. *)
 Definition string_deref (s : option str) (index : Z) : result Z :=
   match s with
   | None => Exc NilPointer
-  | Some s => if s32 (strlen s) <=? index then Exc (IndexOob (-1)) else Ok index
+  | Some s =>
+      if (index <? 0) || (s32 (strlen s) <=? index) then Exc (IndexOob (-1)) else Ok index
   end.
 
 (* the character produced when the offset lies inside the string *)
